@@ -107,7 +107,8 @@ def gen_fit(tier, seed):
     for density in (True, False):
         for extra in ([], [-5.0, 9.0, 9.5]):
             for method in ("simpson", "rectangle"):
-                yield {"density": density, "outside": extra, "method": method}
+                for via in ("constructor", "data-replaced", "model-rebinned") + (("wrapper",) if method == "simpson" else ()):
+                    yield {"density": density, "outside": extra, "method": method, "via": via}
 
 
 @R.oracle("histfit_model_scaling", gen_fit, obligation="HistFit.model")
@@ -116,13 +117,31 @@ def fit_model(inp):
     entries = [0.5, 0.7, 1.5, 3.0, 3.5, 2.0] + list(inp["outside"])
     h = HistContainer(bin_edges=list(edges), fill_data=list(entries))
     f, F = poly(1)
-    fit = HistFit(h, f, bin_evaluation=inp["method"], density=inp["density"])
+    via = inp.get("via", "constructor")
+    if via == "wrapper":                     # the convenience function has to hand the settings on (bin evaluation is not one of its options: default simpson)
+        wrapper = imp("kafe2.fit.util.wrapper")
+        wrapper.hist_fit(f, list(entries), bin_edges=list(edges), density=inp["density"], report=False, profile=False, save=False)
+        fit = wrapper._fit_history[-1]["fit"]
+    elif via == "data-replaced":             # same number of bins and same range, other inner edges: the model has to be integrated over the bins of the data now in the fit
+        fit = HistFit(HistContainer(bin_edges=[0.0, 2.0, 3.0, 4.0], fill_data=list(entries)), f, bin_evaluation=inp["method"], density=inp["density"])
+        _ = fit.model
+        fit.data = h
+    elif via == "model-rebinned":            # a parametric model whose binning is changed re-evaluates its bin contents
+        fit = HistFit(h, f, bin_evaluation=inp["method"], density=inp["density"])
+        pm0 = HPM(3, (0.0, 4.0), f, [0.3, 0.2], bin_edges=[0.0, 2.0, 3.0, 4.0], bin_evaluation=inp["method"])
+        _ = pm0.data
+        pm0.rebin(list(edges))
+        ref0 = HPM(3, (0.0, 4.0), f, [0.3, 0.2], bin_edges=list(edges), bin_evaluation=inp["method"])
+        if not close(np.asarray(pm0.data, dtype=float), np.asarray(ref0.data, dtype=float)):
+            return {"got": np.asarray(pm0.data), "expected": np.asarray(ref0.data), "witness_class": "model-rebin-not-re-evaluated"}
+    else:
+        fit = HistFit(h, f, bin_evaluation=inp["method"], density=inp["density"])
     fit.set_parameter_values(a=0.3, b=0.2)
     got = np.asarray(fit.model, dtype=float)
     pm = HPM(3, (0.0, 4.0), f, [0.3, 0.2], bin_edges=list(edges), bin_evaluation=inp["method"])
     want = np.asarray(pm.data, dtype=float) * (len(entries) if inp["density"] else 1.0)
     if not close(got, want):
-        return {"got": got, "expected": want, "witness_class": "N-scaling" if inp["density"] else "no-scaling"}
+        return {"got": got, "expected": want, "witness_class": ("N-scaling" if inp["density"] else "no-scaling") + ("" if via == "constructor" else ":" + via)}
     # parameter change is picked up
     fit.set_parameter_values(a=0.6, b=0.1)
     pm.parameters = [0.6, 0.1]
